@@ -189,21 +189,31 @@ theorem reachable_inv (perShard : Bool) (target : Nat) (ks0 : Option K) (evs : L
     Inv (run (Pool.init perShard target ks0) evs) :=
   inv_run (inv_init perShard target ks0) evs
 
-/-- **published_has_keyspace**.  In every reachable state — whatever happened before, overlapping requests
-included — in which the NEWEST use-keyspace request `L` arrived when no older one was unanswered
-(`overlap = false`: the documented usage "call only one `use_keyspace` at a time", re-evaluated at every
-request, so one past overlap does not spoil the future) and `L` has been answered Ok — or with a
-broken-connection error, which the node-level fan-out tolerates —: every published connection that is not
-broken, and on which no user-issued `USE` statement was written after `L`'s own `USE`, has keyspace `L.ks` set
-at the server and NO `USE` in flight that could still change it (a `USE` left in flight by an older, timed-out
-request was served before `L`'s: connections are FIFO); `L.ks` is the pool's current keyspace.
+/-- **published_has_keyspace**.  The model lets the node answer the statements of one connection in ANY order
+(`serveOoo`: CQL allows it); no in-order-server assumption is built in. In every reachable state — whatever
+happened before, overlapping requests included — in which the NEWEST use-keyspace request `L` arrived when no
+older one was unanswered (`overlap = false`: the documented usage "call only one `use_keyspace` at a time",
+re-evaluated at every request, so one past overlap does not spoil the future) and `L` has been answered Ok — or
+with a broken-connection error, which the node-level fan-out tolerates —: every published connection that is not
+broken and is not marked `unclaimed` has keyspace `L.ks` set at the server and NO `USE` in flight that could
+still change it; `L.ks` is the pool's current keyspace.
+`unclaimed` is set by exactly two events (`unclaimed_only_by_user_use_or_out_of_order`): a user-issued `USE`
+written on the connection, and the node answering something out of order on it; it is cleared when the newest
+task writes its own `USE`. So the hypothesis reads: since `L`'s own `USE` was written on this connection, no user
+`USE` was written behind it and the node has answered this connection's statements in order. Under the ASSUMPTION
+that the node executes the statements of one connection in order (and without user-issued `USE`) it always holds
+(`in_order_server_claims_every_connection`); without that assumption it holds in particular whenever at most one
+statement is in flight when `L`'s `USE` is answered (`out_of_order_impossible_when_prefix_drained`: the prefix
+ahead of the newest `USE` has drained) — and it can genuinely fail otherwise (example `evsLate`: a `USE` left in
+flight by a timed-out request, executed by the node AFTER the newest one, puts the connection back into the
+older keyspace).
 Since this holds in every later state too (until the next request arrives), it covers every later request,
 connections opened afterwards or concurrently included: they are not published before. -/
 theorem published_has_keyspace (perShard : Bool) (target : Nat) (ks0 : Option K) (evs : List (Ev K)) :
     let p := run (Pool.init perShard target ks0) evs
     p.overlap = false → ∀ L, p.latest = some L → (L.resp = some .ok ∨ L.resp = some (.err .broken)) →
       p.currentKs = some L.ks ∧
-      ∀ i ∈ p.conns, (p.net i).broken = false → (p.net i).userMark = false →
+      ∀ i ∈ p.conns, (p.net i).broken = false → (p.net i).unclaimed = false →
         (p.net i).serverKs = some L.ks ∧ (p.net i).queue = [] := by
   intro p hov L hL hresp
   exact published_of_inv (reachable_inv perShard target ks0 evs) hov L hL hresp
@@ -213,7 +223,7 @@ discovered node): every published live connection (no user-issued `USE` on it) h
 theorem published_has_initial_keyspace (perShard : Bool) (target : Nat) (ks0 : Option K) (evs : List (Ev K)) :
     let p := run (Pool.init perShard target ks0) evs
     p.overlap = false → p.tasks = [] →
-      ∀ i ∈ p.conns, (p.net i).broken = false → (p.net i).userMark = false →
+      ∀ i ∈ p.conns, (p.net i).broken = false → (p.net i).unclaimed = false →
         (p.net i).serverKs = p.currentKs ∧ (p.net i).queue = [] := by
   intro p hov ht
   have hs := (reachable_inv perShard target ks0 evs).strong hov
@@ -227,7 +237,7 @@ flight — whatever older, timed-out requests left in flight is ahead of it and 
 theorem newest_use_is_last_in_flight (perShard : Bool) (target : Nat) (ks0 : Option K) (evs : List (Ev K)) :
     let p := run (Pool.init perShard target ks0) evs
     p.overlap = false → ∀ L, p.latest = some L → L.resp = none →
-      ∀ i ∈ p.conns, (p.net i).broken = false → (p.net i).userMark = false → i ∈ L.submitted →
+      ∀ i ∈ p.conns, (p.net i).broken = false → (p.net i).unclaimed = false → i ∈ L.submitted →
         L.results.lookup i = none →
         ∃ pre, (p.net i).queue = pre ++ [(.task L.id, L.ks)] ∧ ∀ e ∈ pre, e.1 ≠ .task L.id := by
   intro p hov L hL hal i hi hb hm hsub hlk
@@ -304,7 +314,7 @@ The statement is written on ONE published connection; when the node acknowledges
 is `x` while the pool's current keyspace is still the old one. The session then calls `use_keyspace(x)` itself.
 What holds: -/
 
-/-- The user statement touches nothing but the connection it is written on: no other connection, no task, not
+/-- One-step fact (a direct unfolding of `step`): the user statement touches nothing but the connection it is written on: no other connection, no task, not
 the pool's current keyspace, not the published list. -/
 theorem user_use_is_local (p : Pool K) (i : Nat) (x : K) :
     let q := step p (.userUse i x)
@@ -315,7 +325,7 @@ theorem user_use_is_local (p : Pool K) (i : Nat) (x : K) :
   · refine ⟨fun j hj => by simp [setConn, hj], rfl, rfl, rfl, rfl, by simp [setConn]⟩
   · exact ⟨fun _ _ => rfl, rfl, rfl, rfl, rfl, rfl⟩
 
-/-- It marks the connection (`published_has_keyspace` then claims nothing about it), and the mark is removed
+/-- One-step fact (a direct unfolding of `step`). The user statement marks the connection (`published_has_keyspace` then claims nothing about it), and the mark is removed
 exactly when the newest use-keyspace task writes its own `USE` behind it: from then on the connection is
 covered again, and FIFO order guarantees the task's keyspace wins. So after the session's follow-up
 `use_keyspace(x)` has been answered Ok, `published_has_keyspace` covers every published live connection on
@@ -324,11 +334,68 @@ theorem newest_submit_clears_mark (p : Pool K) (L : Keyspace.Task K) (rest : Lis
     (ht : p.tasks = L :: rest) (hal : L.resp = none) (hin : i ∈ L.snapshot) (hns : i ∉ L.submitted)
     (hb : (p.net i).broken = false) :
     let q := step p (.taskSubmit L.id i)
-    (q.net i).userMark = false ∧ (q.net i).queue = (p.net i).queue ++ [(.task L.id, L.ks)] := by
+    (q.net i).unclaimed = false ∧ (q.net i).queue = (p.net i).queue ++ [(.task L.id, L.ks)] := by
   simp only [step, findTask, ht, List.find?_cons, decide_true, List.head?_cons, Option.map_some, beq_self_eq_true,
     hal, Option.isSome_none, List.contains_eq_mem, hin, hns, decide_false, decide_true,
     Bool.not_true, Bool.or_self, Bool.false_eq_true, ↓reduceIte, hb, setConn]
   exact ⟨trivial, trivial⟩
+
+/-! ### the in-order assumption, isolated -/
+
+/-- One-step fact: with at most one statement in flight on a connection the node cannot answer out of order
+there — once the prefix ahead of the newest `USE` has drained, the in-order assumption is vacuous for it. -/
+theorem out_of_order_impossible_when_prefix_drained (p : Pool K) (i j : Nat) (r : SrvReply K)
+    (h : (p.net i).queue.length ≤ 1) : step p (.serveOoo i j r) = p := by
+  simp only [step]
+  have : (p.net i).queue[j + 1]? = none := List.getElem?_eq_none (by omega)
+  rw [this]
+
+/-- One-step fact: an out-of-order answer marks the connection (nothing is claimed about it afterwards). -/
+theorem out_of_order_answer_marks (p : Pool K) (i j : Nat) (r : SrvReply K) (e : Waiter × K)
+    (h : (p.net i).queue[j + 1]? = some e) : ((step p (.serveOoo i j r)).net i).unclaimed = true := by
+  obtain ⟨w, k⟩ := e
+  simp only [step, h]
+  cases w with
+  | user => simp [setConn]
+  | task tid =>
+    simp only
+    split
+    · simp [setConn]
+    · split <;> simp [setConn]
+
+/-- Only a user-issued `USE` and an out-of-order answer set the mark. -/
+theorem unclaimed_only_by_user_use_or_out_of_order (p : Pool K) (e : Ev K)
+    (h : ∀ i, (p.net i).unclaimed = false) (he : ∀ i j r, e ≠ .serveOoo i j r) (hu : ∀ i x, e ≠ .userUse i x) :
+    ∀ i, ((step p e).net i).unclaimed = false :=
+  unclaimed_step h e he hu
+
+/-- Under the assumption that the node answers the statements of every connection in order (no `serveOoo`
+event) and without user-issued `USE` statements, no connection is ever marked: `published_has_keyspace` then
+covers every published live connection. -/
+theorem in_order_server_claims_every_connection (perShard : Bool) (target : Nat) (ks0 : Option K)
+    (evs : List (Ev K)) (hfifo : ∀ e ∈ evs, (∀ i j r, e ≠ .serveOoo i j r) ∧ (∀ i x, e ≠ .userUse i x)) :
+    ∀ i, ((run (Pool.init perShard target ks0) evs).net i).unclaimed = false := by
+  unfold run
+  have base : ∀ i, ((Pool.init perShard target ks0 : Pool K).net i).unclaimed = false := fun _ => rfl
+  generalize (Pool.init perShard target ks0 : Pool K) = p0 at base
+  induction evs generalizing p0 with
+  | nil => exact base
+  | cons e es ih =>
+    simp only [List.foldl_cons]
+    apply ih (fun e' he' => hfifo e' (List.mem_cons_of_mem _ he'))
+    exact unclaimed_step base e (hfifo e List.mem_cons_self).1 (hfifo e List.mem_cons_self).2
+
+/-- Without the assumption the property can fail, and the model shows how: request 0 (keyspace 1) times out with
+its `USE` in flight; request 1 (keyspace 2) writes its own behind it; the node answers the NEWER one first and
+request 1 returns Ok; then it executes the stale one: the published connection is back in keyspace 1. The
+connection is marked, so the theorem (rightly) claims nothing. -/
+private def evsLate : List (Ev Nat) :=
+  [.refill, .opened 0 none none, .useKs 1, .taskSubmit 0 0, .taskTimeout 0, .useKs 2, .taskSubmit 1 0,
+   .serveOoo 0 0 .ack, .taskFinish 1, .serve 0 .ack]
+example : let p := run (Pool.init false 1 (none : Option Nat)) evsLate
+    p.overlap = false ∧ (p.latest.map (·.resp)) = some (some .ok) ∧ p.currentKs = some 2 ∧ p.conns = [0] ∧
+    (p.net 0).broken = false ∧ (p.net 0).queue = [] ∧ (p.net 0).serverKs = some 1 ∧
+    (p.net 0).unclaimed = true := by decide
 
 /-! non-vacuity: a use-keyspace request races with a refill. The connection opened meanwhile (id 1) is held in
 `setting` until the server acknowledged the keyspace, and only then published. -/
@@ -339,7 +406,7 @@ private def evsA : List (Ev Nat) :=
 example : let p := run (Pool.init false 2 (none : Option Nat)) evsA
     p.overlap = false ∧ (p.latest.map (·.resp)) = some (some .ok) ∧ p.conns = [0, 1] ∧
     (p.net 0).serverKs = some 7 ∧ (p.net 1).serverKs = some 7 ∧ (p.net 1).acked = [7] ∧
-    (p.net 0).queue = [] ∧ (p.net 0).userMark = false := by decide
+    (p.net 0).queue = [] ∧ (p.net 0).unclaimed = false := by decide
 
 example : let p := run (Pool.init false 2 (none : Option Nat)) evsA.dropLast
     (p.latest.map (·.resp)) = some (some .ok) ∧ p.conns = [0] ∧ p.setting = [(1, 7, none)] ∧
@@ -368,7 +435,7 @@ and recovered. -/
 private def evsRecover : List (Ev Nat) := evsOverlap ++ [.useKs 3, .taskSubmit 2 0, .serve 0 .ack, .taskFinish 2]
 example : let p := run (Pool.init false 1 (none : Option Nat)) evsRecover
     p.overlap = false ∧ (p.latest.map (·.resp)) = some (some .ok) ∧ p.currentKs = some 3 ∧ p.conns = [0] ∧
-    (p.net 0).broken = false ∧ (p.net 0).userMark = false ∧ (p.net 0).serverKs = some 3 ∧
+    (p.net 0).broken = false ∧ (p.net 0).unclaimed = false ∧ (p.net 0).serverKs = some 3 ∧
     (p.net 0).queue = [] := by decide
 
 /-- A `USE` left in flight by a timed-out request is representable and is served BEFORE the next request's
@@ -390,11 +457,11 @@ private def evsUser : List (Ev Nat) :=
   [.refill, .opened 0 none none, .useKs 5, .taskSubmit 0 0, .serve 0 .ack, .taskFinish 0, .userUse 0 9, .serve 0 .ack]
 example : let p := run (Pool.init false 1 (none : Option Nat)) evsUser
     p.overlap = false ∧ (p.latest.map (·.resp)) = some (some .ok) ∧ p.currentKs = some 5 ∧
-    (p.net 0).serverKs = some 9 ∧ (p.net 0).userMark = true := by decide
+    (p.net 0).serverKs = some 9 ∧ (p.net 0).unclaimed = true := by decide
 private def evsUser2 : List (Ev Nat) := evsUser ++ [.useKs 9, .taskSubmit 1 0, .serve 0 .ack, .taskFinish 1]
 example : let p := run (Pool.init false 1 (none : Option Nat)) evsUser2
     p.overlap = false ∧ (p.latest.map (·.resp)) = some (some .ok) ∧ p.currentKs = some 9 ∧
-    (p.net 0).serverKs = some 9 ∧ (p.net 0).userMark = false ∧ (p.net 0).queue = [] := by decide
+    (p.net 0).serverKs = some 9 ∧ (p.net 0).unclaimed = false ∧ (p.net 0).queue = [] := by decide
 
 /-- A request whose `USE` the server rejects on one connection is answered with the error, and that
 connection stays published in its old keyspace (a failed call may leave the pool mixed - as documented). -/
@@ -478,7 +545,7 @@ theorem cluster_published_has_keyspace (perShard : Bool) (target : Nat) (evs : L
     let c := crun (Cluster.init perShard target : Cluster K) evs
     c.overlap = false → ∀ F, c.fanouts.head? = some F → F.resp = some .ok →
       ∀ n ∈ c.known, ∀ i ∈ (c.pools n).conns, ((c.pools n).net i).broken = false →
-        ((c.pools n).net i).userMark = false →
+        ((c.pools n).net i).unclaimed = false →
         ((c.pools n).net i).serverKs = some F.ks ∧ ((c.pools n).net i).queue = [] := by
   intro c hov F hF hr
   obtain ⟨h1, h2, _, h4⟩ := cluster_run_invs perShard target evs
@@ -526,7 +593,7 @@ private def cevsRecover2 : List (CEv Nat) :=
     .fanoutFinish 2]
 example : let c := crun (Cluster.init false 1 : Cluster Nat) cevsRecover2
     c.overlap = false ∧ (c.pools 0).overlap = false ∧ (c.fanouts.head?.map (·.resp)) = some (some .ok) ∧
-    c.known = [0] ∧ (c.pools 0).conns = [0] ∧ ((c.pools 0).net 0).userMark = false ∧
+    c.known = [0] ∧ (c.pools 0).conns = [0] ∧ ((c.pools 0).net 0).unclaimed = false ∧
     ((c.pools 0).net 0).serverKs = some 3 ∧ ((c.pools 0).net 0).queue = [] := by decide
 
 /-! ## E. The session layer: `Session::use_keyspace` as the code has it (store the name, validate, fan out)
@@ -536,7 +603,7 @@ stored name is never consulted. The theorems below say that no call is answered 
 behind: an invalid name is rejected every time, and an Ok answer is the answer of the call's OWN fan-out, whose
 own `USE` statements were written and acknowledged. -/
 
-/-- **An invalid name is rejected every time**, whatever the session has recorded (the very same name included):
+/-- One-step fact (a direct unfolding of `sstep`). **An invalid name is rejected every time**, whatever the session has recorded (the very same name included):
 the call returns the validation error at once and nothing happens in the cluster - no fan-out, no pool request,
 no statement written on any connection. (The name IS stored: `get_keyspace` reports it - a wart, not a send.) -/
 theorem session_invalid_name_rejected_every_time (s : Session) (name : String) (cs : Bool) (e : BadName)
@@ -546,7 +613,7 @@ theorem session_invalid_name_rejected_every_time (s : Session) (name : String) (
   simp only [sstep, h]
   exact ⟨trivial, trivial, trivial⟩
 
-/-- **Every call with a valid name starts its own fan-out**, whatever the session has recorded (the very same
+/-- One-step fact (a direct unfolding of `sstep`). **Every call with a valid name starts its own fan-out**, whatever the session has recorded (the very same
 name included, whether the earlier call succeeded, failed, timed out or is still running, and whatever the
 flag): the worker handles a fresh request for exactly this (name, flag), with a fresh id. -/
 theorem session_call_starts_its_own_fanout (s : Session) (name : String) (cs : Bool) (v : VerifiedName)
@@ -629,7 +696,7 @@ theorem session_published_has_keyspace (perShard : Bool) (target : Nat) (evs : L
     let s := srun (Session.init perShard target) evs
     s.cluster.overlap = false → ∀ F, s.cluster.fanouts.head? = some F → F.resp = some .ok →
       ∀ n ∈ s.cluster.known, ∀ i ∈ (s.cluster.pools n).conns, ((s.cluster.pools n).net i).broken = false →
-        ((s.cluster.pools n).net i).userMark = false →
+        ((s.cluster.pools n).net i).unclaimed = false →
         ((s.cluster.pools n).net i).serverKs = some F.ks ∧ ((s.cluster.pools n).net i).queue = [] := by
   intro s
   obtain ⟨cevs, hcl⟩ := srun_cluster perShard target evs
